@@ -48,12 +48,24 @@ def run(prog, chk):
             if n['k'] == 'member' and n['name'] in FIELDS and 'SemVer' in n.get('q', ''):
                 nuse += 1
                 par = pm.get(id(n))
+                while par is not None and par.get('k') == 'cast':
+                    par = pm.get(id(par))
                 ok = False
                 if par is not None and par.get('k') == 'bin' and par['op'] in ('==', '!=', '<', '>', '<=', '>='):
                     other = par['r'] if par['l'] is n else par['l']
                     ok = SX.is_node(other) and other['k'] == 'member' and other['name'] == n['name'] and SX.show(other['base']) != SX.show(n['base'])
-                chk.ob('R20.1', f, n.get('ln', f.ln), ok, 'version component %s must only be compared with the same component of the other version' % SX.show(n),
-                       key='pairwise:%s' % f.short, nontrivial=False)
+                if ok:
+                    chk.ob('R20.1', f, n.get('ln', f.ln), True, 'version component %s compared with the same component of the other version' % SX.show(n),
+                           key='pairwise:%s' % f.short, nontrivial=False)
+                elif par is not None and par.get('k') in ('bin', 'cassign') and par['op'] in ('+', '-', '*', '/', '%', '<<', '>>', '+=', '-=', '*=', '|', '^'):
+                    # an ordering computed by arithmetic on unbounded components (packing, differences) cannot equal the lexicographic
+                    # order for all integers: it overflows or collides for large components
+                    chk.ob('R20.1', f, n.get('ln', f.ln), False,
+                           'version component %s is used as an operand of `%s`: versions must be ordered by comparing components, not by arithmetic on them '
+                           '(packing/differences collide or overflow for large components)' % (SX.show(n), par['op']), key='arith:%s' % f.short.split('@')[0])
+                else:
+                    raise AnalysisBroken('version component %s is used in a way the quotient argument does not cover (%s); the comparison tables cannot be decided' % (
+                        SX.show(n), (par or {}).get('k')))
     chk.count('uses of version components outside the parser', nuse, 12)
 
     # ---- abstract domain ----------------------------------------------------------------------
